@@ -556,6 +556,58 @@ C13Clauses(step) == IF step.op.op = "Export" /\ step.exc = "none"
                     THEN {C13_pure(step), C13_repeat(step), C13_twin(step)} ELSE {}
 
 -----------------------------------------------------------------------------
+(* C14 — graph conversion mirrors the document and converts back to its unified form *)
+(* step.res = [nodes: Seq([k, id, inf]), edges: Seq([s, d, rel]), back: [recs]] ;    *)
+(* step.src = projection of the (bundle-free) source                                 *)
+InferKind == [entity |-> "entity", activity |-> "activity", agent |-> "agent", trigger |-> "entity",
+              generatedEntity |-> "entity", usedEntity |-> "entity", delegate |-> "agent",
+              responsible |-> "agent", specificEntity |-> "entity", generalEntity |-> "entity",
+              alternate1 |-> "entity", alternate2 |-> "entity", collection |-> "entity",
+              informed |-> "activity", informant |-> "activity", plan |-> "entity",
+              ender |-> "entity", starter |-> "entity", influencee |-> "none", influencer |-> "none",
+              bundle |-> "bundle"]
+F1(r) == Formals[r.k][1]
+F2(r) == Formals[r.k][2]
+RefOf(r, f) == LET vs == {x.v : x \in {y \in r.attrs : y.a = ProvU(f)}} IN
+               IF vs = {} THEN NONE ELSE (CHOOSE v \in vs : TRUE).u
+GUnified(step) == UnifiedSpec(step.src.recs)
+GElements(U) == SelectSeq(U, LAMBDA r : r.k \in Elements)
+GDeclared(U) == {U[i].id : i \in {j \in 1..Len(U) : U[j].k \in Elements}}
+GHasEnds(r) == r.k \notin Elements /\ Len(Formals[r.k]) >= 2 /\ RefOf(r, F1(r)) # NONE /\ RefOf(r, F2(r)) # NONE
+(* influence with an undeclared endpoint is documented as skipped and not claimed *)
+GClaimed(U, r) == ~(r.k = "influence" /\ ~({RefOf(r, F1(r)), RefOf(r, F2(r))} \subseteq GDeclared(U)))
+GEdgeRecs(U) == SelectSeq(U, LAMBDA r : GHasEnds(r) /\ GClaimed(U, r))
+GInferred(U) ==
+  {[k |-> InferKind[f], id |-> u, inf |-> TRUE] :
+     <<f, u>> \in UNION {{<<F1(r), RefOf(r, F1(r))>>, <<F2(r), RefOf(r, F2(r))>>} : r \in SeqToSet(GEdgeRecs(U))}}
+SkippedInfluence(U) == \E i \in 1..Len(U) : GHasEnds(U[i]) /\ ~GClaimed(U, U[i])
+C14_nodes(step) ==
+  LET U == GUnified(step)
+      els == GElements(U)
+      got == step.res.nodes
+      declared == SelectSeq(got, LAMBDA n : ~n.inf)
+      inferred == {got[i] : i \in {j \in 1..Len(got) : got[j].inf}}
+  IN Cl("C14_nodes", step.op.op = "Graph" /\ step.exc = "none" /\ ~SkippedInfluence(U),
+        /\ SameBag([i \in 1..Len(declared) |-> [k |-> declared[i].k, id |-> declared[i].id]],
+                   [i \in 1..Len(els) |-> [k |-> els[i].k, id |-> els[i].id]])
+        /\ Cardinality(inferred) = Len(got) - Len(declared)          \* no inferred node twice
+        /\ {n.id : n \in inferred} = {n.id : n \in GInferred(U)} \ GDeclared(U)
+        /\ \A n \in inferred : \E m \in GInferred(U) : m.id = n.id /\ m.k = n.k)
+C14_edges(step) ==
+  LET U == GUnified(step)
+      want == GEdgeRecs(U)
+  IN Cl("C14_edges", step.op.op = "Graph" /\ step.exc = "none" /\ ~SkippedInfluence(U),
+        SameBag([i \in 1..Len(step.res.edges) |->
+                   [s |-> step.res.edges[i].s, d |-> step.res.edges[i].d, rel |-> Content(step.res.edges[i].rel)]],
+                [i \in 1..Len(want) |->
+                   [s |-> RefOf(want[i], F1(want[i])), d |-> RefOf(want[i], F2(want[i])), rel |-> want[i]]]))
+C14_back(step) ==
+  LET U == GUnified(step) IN
+  Cl("C14_back", step.op.op = "Graph" /\ step.exc = "none" /\ ~SkippedInfluence(U),
+     SameBag(ContentSeq(step.res.back.recs), GElements(U) \o GEdgeRecs(U)))
+C14Clauses(step) == IF step.op.op = "Graph" THEN {C14_nodes(step), C14_edges(step), C14_back(step)} ELSE {}
+
+-----------------------------------------------------------------------------
 (* Conformance (drift) clauses: the model's post-state against the logged   *)
 (* one.  A failure here never becomes a VIOLATION (DESIGN 2.5).             *)
 M_Names(msPost, mres, step) ==
